@@ -387,6 +387,10 @@ def idioms(e):
     return ast.copy_location(ast.Subscript(value=e.value.value, slice=ast.Tuple(elts=[e.value.slice, e.slice], ctx=ast.Load()), ctx=ast.Load()), e)
   if isinstance(e, ast.Attribute) and e.attr == 'values' and isinstance(e.ctx, ast.Load):
     return ast.copy_location(ast.Call(func=ast.Attribute(value=e.value, attr='to_numpy', ctx=ast.Load()), args=[], keywords=[]), e)
+  if isinstance(e, ast.Call) and isinstance(e.func, ast.Lambda) and not e.args and not e.keywords:
+    a_ = e.func.args
+    if not (a_.args or a_.posonlyargs or a_.kwonlyargs or a_.vararg or a_.kwarg):
+      return e.func.body          # (lambda: E)()  ->  E   (a thunk called where it is written)
   if isinstance(e, ast.Call):
     if norm(e.func) in ('np.concatenate', 'numpy.concatenate', 'np.hstack', 'np.vstack', 'pd.concat', 'pandas.concat') and e.args and isinstance(e.args[0], ast.List):
       e.args[0] = ast.copy_location(ast.Tuple(elts=e.args[0].elts, ctx=ast.Load()), e.args[0])
